@@ -15,6 +15,9 @@ PAIRS=(
   "server/internal/bvh/verif_export_overlay.go=bvh_export.go"
   "server/verif_bvh_export_overlay.go=server_bvh_export.go"
   "level/block/verif_export_overlay.go=block_export.go"
+  "chat/sign/verif_export_overlay.go=sign_export.go"
+  "bot/verif_x12_export_overlay.go=bot_x12_export.go"
+  "server/auth/verif_x12_export_overlay.go=serverauth_x12_export.go"
 )
 # server/keepalive.go: the exported API has no handle on time (two unexported constants). A copy of the file as it
 # is in $REPO, with nothing but `const` -> `var` on those two declarations, replaces it for the build; the shim
